@@ -220,6 +220,7 @@ def step (s : St) (toks : List String) : St × String :=
   | ["MODE", m] => ({ s with asyncMode := m.startsWith "async" }, "ok")
   | ["BGCLEAN", _] => (s, "ok")
   | ["FOREIGN", _, _] => (s, "ok")
+  | ["PREFILE", _, _] => (s, "ok")
   | _ => (s, "bad-op")
 
 end Drv.FlwDrv
